@@ -233,4 +233,16 @@ theorem C04_wellformed (m : Meta) (pcm bs : List Nat) (h : buildWav m pcm = .ok 
 example : (buildWav ⟨1, 44100, 16, some ⟨22676, 60, 0, [⟨0, 0, 10, 20, 0, 3⟩]⟩⟩ [1, 2, 3, 4]).toOption.map wellFormed
     = some true := by decide
 
+/-- the MIDI unity note written into the `smpl` chunk is always a MIDI note number (0..127),
+whatever root note and tuning the sample header holds (after the `fix:` of D15). -/
+theorem C04_unity_note_range (g : GenSample) (s : Smpl) (h : smplOf g = some s) :
+    0 ≤ s.note ∧ s.note ≤ 127 := by
+  unfold smplOf at h
+  split at h
+  · cases h
+  · simp only [Option.some.injEq] at h
+    subst h
+    simp only
+    split <;> (try split) <;> omega
+
 end Smpl.Props.C04
